@@ -172,18 +172,24 @@ theorem tk_newMeta_spawn (W : World) (c : Nat) (t0 : Task) (h0 : New c t0) :
     TKp New W (W.newMeta.2.modCmd c fun x => { x with spawnQ := x.spawnQ ++ [t0] }) :=
   TKp.trans (w2 := W.newMeta.2) (tk_of_cmds rfl) (tk_spawn _ c t0 h0)
 
+/-- what a spawn into `sink` may add to a command's spawn queue: a host-free task, and only if the sink is that command -/
+def SinkNew (New : Nat → Task → Prop) (sink : Sink) : Prop :=
+  ∀ c t, sink = .cmd c → hostFreeB t.fut = true → New c t
+
 def TGood (pn : Waker → Nat → World → Option (NextRes × World)) (f : Nat) : Prop :=
-  ∀ wk sink b w r w', pollBlock pn f wk sink b w = some (r, w') → hostFreeB b = true → TK w w'
+  ∀ (New : Nat → Task → Prop) wk sink b w r w', pollBlock pn f wk sink b w = some (r, w') → hostFreeB b = true →
+    SinkNew New sink → TKp New w w'
 
 theorem tgood_zero (pn) : TGood pn 0 := by
-  intro wk sink b w r w' h; simp [pollBlock] at h
+  intro New wk sink b w r w' h; simp [pollBlock] at h
 
-theorem TGood.via {pn f} (ih : TGood pn f) {wk : Waker} {sink : Sink} {b : Block} {w w1 : World} {r : PollRes} {w' : World}
-    (h1 : TK w w1) (hf : hostFreeB b = true) (h : pollBlock pn f wk sink b w1 = some (r, w')) : TK w w' :=
-  h1.trans (ih wk sink b w1 r w' h hf)
+theorem TGood.via {pn f} (ih : TGood pn f) {New : Nat → Task → Prop} {wk : Waker} {sink : Sink} {b : Block} {w w1 : World}
+    {r : PollRes} {w' : World} (hN : SinkNew New sink)
+    (h1 : TKp New w w1) (hf : hostFreeB b = true) (h : pollBlock pn f wk sink b w1 = some (r, w')) : TKp New w w' :=
+  h1.trans (ih New wk sink b w1 r w' h hf hN)
 
 theorem tgood_succ (pn) (f : Nat) (ih : TGood pn f) : TGood pn (f + 1) := by
-  intro wk sink b w r w' h hf
+  intro New wk sink b w r w' h hf hN
   have hres := (pollBlock_lgood pn (f + 1) wk sink b w r w' h hf).2
   obtain ⟨env, cur, rest⟩ := b
   unfold pollBlock at h
@@ -203,8 +209,8 @@ theorem tgood_succ (pn) (f : Nat) (ih : TGood pn f) : TGood pn (f + 1) := by
       simp only [hostFreeIs, Bool.and_eq_true] at hfr
       obtain ⟨hfi, hfr'⟩ := hfr
       cases i with
-      | emit tag e => exact ih.via (tk_sinkEvent w sink _) (hidle _ _ hfr') h
-      | notify n e => exact ih.via (tk_sinkEffect w sink _) (hidle _ _ hfr') h
+      | emit tag e => exact ih.via hN (tk_sinkEvent w sink _) (hidle _ _ hfr') h
+      | notify n e => exact ih.via hN (tk_sinkEffect w sink _) (hidle _ _ hfr') h
       | req x n e =>
         simp only [Option.some.injEq, Prod.mk.injEq] at h
         obtain ⟨_, rfl⟩ := h
@@ -218,55 +224,55 @@ theorem tgood_succ (pn) (f : Nat) (ih : TGood pn f) : TGood pn (f + 1) := by
         | cmd c =>
           simp only at h
           simp only [hostFreeI] at hfi
-          refine ih.via (w1 := _) ?_ (hidle _ _ hfr') h
-          refine tk_newMeta_spawn w c _ ?_
+          refine ih.via hN (w1 := _) ?_ (hidle _ _ hfr') h
+          refine tk_newMeta_spawn w c _ (hN c _ rfl ?_)
           simp [hostFreeB, hostFreeP, hfi]
         | core =>
           simp only at h
-          refine ih.via (w1 := _) ?_ (hidle _ _ hfr') h
+          refine ih.via hN (w1 := _) ?_ (hidle _ _ hfr') h
           exact tk_of_cmds rfl
       | handoff x n e body =>
         cases sink with
         | cmd c =>
           simp only at h
           simp only [hostFreeI] at hfi
-          refine ih.via (w1 := _) ?_ (hidle _ _ hfr') h
-          refine TKp.trans (tk_newLeaf_sinkEffect w (some wk) false (.cmd c) _) (tk_newMeta_spawn _ c _ ?_)
+          refine ih.via hN (w1 := _) ?_ (hidle _ _ hfr') h
+          refine TKp.trans (tk_newLeaf_sinkEffect w (some wk) false (.cmd c) _) (tk_newMeta_spawn _ c _ (hN c _ rfl ?_))
           simp [hostFreeB, hostFreeP, hfi]
         | core =>
           simp only at h
-          refine ih.via (w1 := _) ?_ (hidle _ _ hfr') h
-          have := tk_newLeaf_sinkEffect (New := fun _ t => hostFreeB t.fut = true) w (some wk) true .core
+          refine ih.via hN (w1 := _) ?_ (hidle _ _ hfr') h
+          have := tk_newLeaf_sinkEffect (New := New) w (some wk) true .core
             ⟨⟨n, env.eval e⟩, .once (w.newLeaf (some wk) true).1⟩
           exact ⟨fun c' => this.tasks c', fun c' t ht => this.spawn c' t ht⟩
       | await hd =>
         cases hh : env.handle hd with
-        | none => simp only [hh] at h; exact ih.via (TKp.refl w) (hidle _ _ hfr') h
-        | some s => simp only [hh] at h; exact ih.via (TKp.refl w) (by simp [hostFreeB, hostFreeP, hfr']) h
+        | none => simp only [hh] at h; exact ih.via hN (TKp.refl w) (hidle _ _ hfr') h
+        | some s => simp only [hh] at h; exact ih.via hN (TKp.refl w) (by simp [hostFreeB, hostFreeP, hfr']) h
       | abortTask hd =>
         cases hh : env.handle hd with
-        | none => simp only [hh] at h; exact ih.via (TKp.refl w) (hidle _ _ hfr') h
+        | none => simp only [hh] at h; exact ih.via hN (TKp.refl w) (hidle _ _ hfr') h
         | some s =>
           simp only [hh] at h
-          refine ih.via (w1 := _) ?_ (hidle _ _ hfr') h
+          refine ih.via hN (w1 := _) ?_ (hidle _ _ hfr') h
           exact tk_of_cmds rfl
       | join a b =>
         simp only [hostFreeI, Bool.and_eq_true] at hfi
-        exact ih.via (TKp.refl w) (by simp [hostFreeB, hostFreeP, hfr', hfi.1, hfi.2]) h
+        exact ih.via hN (TKp.refl w) (by simp [hostFreeB, hostFreeP, hfr', hfi.1, hfi.2]) h
       | select a b =>
         simp only [hostFreeI, Bool.and_eq_true] at hfi
-        exact ih.via (TKp.refl w) (by simp [hostFreeB, hostFreeP, hfr', hfi.1, hfi.2]) h
-      | selfwake k => exact ih.via (TKp.refl w) (by simp [hostFreeB, hostFreeP, hfr']) h
+        exact ih.via hN (TKp.refl w) (by simp [hostFreeB, hostFreeP, hfr', hfi.1, hfi.2]) h
+      | selfwake k => exact ih.via hN (TKp.refl w) (by simp [hostFreeB, hostFreeP, hfr']) h
       | abortCmd name =>
         simp only at h
         split at h
-        · exact ih.via (tk_abortCmd w _) (hidle _ _ hfr') h
-        · exact ih.via (TKp.refl w) (hidle _ _ hfr') h
+        · exact ih.via hN (tk_abortCmd w _) (hidle _ _ hfr') h
+        · exact ih.via hN (TKp.refl w) (hidle _ _ hfr') h
       | host c m => simp [hostFreeI] at hfi
   | req x l =>
     simp only at h
     split at h
-    · exact ih.via (tk_dropReceiver w l) (hidle _ _ hfr) h
+    · exact ih.via hN (tk_dropReceiver w l) (hidle _ _ hfr) h
     · split at h
       · simp only [Option.some.injEq, Prod.mk.injEq] at h
         obtain ⟨_, rfl⟩ := h
@@ -282,12 +288,12 @@ theorem tgood_succ (pn) (f : Nat) (ih : TGood pn f) : TGood pn (f + 1) := by
     simp only [hostFreeP] at hfc
     simp only at h
     split at h
-    · exact ih.via (tk_dropReceiver w l) (hidle _ _ hfr) h
+    · exact ih.via hN (tk_dropReceiver w l) (hidle _ _ hfr) h
     · split at h
-      · refine ih.via (w1 := _) ?_ (by simp [hostFreeB, hostFreeP, hfr, hfc]) h
+      · refine ih.via hN (w1 := _) ?_ (by simp [hostFreeB, hostFreeP, hfr, hfc]) h
         exact tk_of_cmds rfl
       · split at h
-        · exact ih.via (tk_dropReceiver w l) (hidle _ _ hfr) h
+        · exact ih.via hN (tk_dropReceiver w l) (hidle _ _ hfr) h
         · simp only [Option.some.injEq, Prod.mk.injEq] at h
           obtain ⟨_, rfl⟩ := h
           exact tk_of_cmds rfl
@@ -298,7 +304,7 @@ theorem tgood_succ (pn) (f : Nat) (ih : TGood pn f) : TGood pn (f + 1) := by
     | none => simp [hp] at h
     | some res =>
       obtain ⟨ri, w1⟩ := res
-      have hi := ih wk sink inner w ri w1 hp hfc.2
+      have hi := ih New wk sink inner w ri w1 hp hfc.2 hN
       cases ri with
       | pending inner' =>
         simp only [hp, Option.some.injEq, Prod.mk.injEq] at h
@@ -306,16 +312,16 @@ theorem tgood_succ (pn) (f : Nat) (ih : TGood pn f) : TGood pn (f + 1) := by
         exact hi
       | ready env' =>
         simp only [hp] at h
-        exact ih.via hi (by simp [hostFreeB, hostFreeP, hfr, hfc.1]) h
+        exact ih.via hN hi (by simp [hostFreeB, hostFreeP, hfr, hfc.1]) h
   | await s =>
     simp only at h
     split at h
-    · exact ih.via (TKp.refl w) (hidle _ _ hfr) h
+    · exact ih.via hN (TKp.refl w) (hidle _ _ hfr) h
     · split at h
       · simp only [Option.some.injEq, Prod.mk.injEq] at h
         obtain ⟨_, rfl⟩ := h
         exact tk_of_cmds rfl
-      · exact ih.via (TKp.refl w) (hidle _ _ hfr) h
+      · exact ih.via hN (TKp.refl w) (hidle _ _ hfr) h
   | join a b ad bd =>
     simp only [hostFreeP, Bool.and_eq_true] at hfc
     simp only at h
@@ -325,7 +331,7 @@ theorem tgood_succ (pn) (f : Nat) (ih : TGood pn f) : TGood pn (f + 1) := by
       split at h
       · simp at h
       · rename_i rb w2 hrb
-        have k1 : TK w w1 := by
+        have k1 : TKp New w w1 := by
           cases ad with
           | true =>
             simp only [if_true, Option.some.injEq, Prod.mk.injEq] at hra
@@ -333,8 +339,8 @@ theorem tgood_succ (pn) (f : Nat) (ih : TGood pn f) : TGood pn (f + 1) := by
             exact TKp.refl w
           | false =>
             simp only [Bool.false_eq_true, if_false] at hra
-            exact ih wk sink a w ra w1 hra hfc.1
-        have k2 : TK w w2 := by
+            exact ih New wk sink a w ra w1 hra hfc.1 hN
+        have k2 : TKp New w w2 := by
           cases bd with
           | true =>
             simp only [if_true, Option.some.injEq, Prod.mk.injEq] at hrb
@@ -342,11 +348,11 @@ theorem tgood_succ (pn) (f : Nat) (ih : TGood pn f) : TGood pn (f + 1) := by
             exact k1
           | false =>
             simp only [Bool.false_eq_true, if_false] at hrb
-            exact ih.via k1 hfc.2 hrb
+            exact ih.via hN k1 hfc.2 hrb
         cases ra <;> cases rb <;>
           simp only [Bool.and_self, Bool.and_false, Bool.false_and, Bool.false_eq_true, if_false, if_true] at h <;>
           first
-          | exact ih.via k2 (hidle _ _ hfr) h
+          | exact ih.via hN k2 (hidle _ _ hfr) h
           | (simp only [Option.some.injEq, Prod.mk.injEq] at h; obtain ⟨_, rfl⟩ := h; exact k2)
   | select a b =>
     simp only [hostFreeP, Bool.and_eq_true] at hfc
@@ -355,23 +361,23 @@ theorem tgood_succ (pn) (f : Nat) (ih : TGood pn f) : TGood pn (f + 1) := by
     | none => simp [hp] at h
     | some res =>
       obtain ⟨ra, w1⟩ := res
-      have k1 := ih wk sink a w ra w1 hp hfc.1
+      have k1 := ih New wk sink a w ra w1 hp hfc.1 hN
       have hfa := (pollBlock_lgood pn f wk sink a w ra w1 hp hfc.1).2
       cases ra with
       | ready enva =>
         simp only [hp] at h
-        exact ih.via (k1.trans (tk_World_dropBlock w1 b hfc.2)) (hidle _ _ hfr) h
+        exact ih.via hN (k1.trans (tk_World_dropBlock w1 b hfc.2)) (hidle _ _ hfr) h
       | pending a' =>
         simp only [hp] at h
         cases hq : pollBlock pn f wk sink b w1 with
         | none => simp [hq] at h
         | some res2 =>
           obtain ⟨rb, w2⟩ := res2
-          have k2 : TK w w2 := ih.via k1 hfc.2 hq
+          have k2 : TKp New w w2 := ih.via hN k1 hfc.2 hq
           cases rb with
           | ready envb =>
             simp only [hq] at h
-            exact ih.via (k2.trans (tk_World_dropBlock w2 a' hfa)) (hidle _ _ hfr) h
+            exact ih.via hN (k2.trans (tk_World_dropBlock w2 a' hfa)) (hidle _ _ hfr) h
           | pending b' =>
             simp only [hq, Option.some.injEq, Prod.mk.injEq] at h
             obtain ⟨_, rfl⟩ := h
@@ -379,7 +385,7 @@ theorem tgood_succ (pn) (f : Nat) (ih : TGood pn f) : TGood pn (f + 1) := by
   | selfwake k =>
     simp only at h
     split at h
-    · exact ih.via (TKp.refl w) (hidle _ _ hfr) h
+    · exact ih.via hN (TKp.refl w) (hidle _ _ hfr) h
     · simp only [Option.some.injEq, Prod.mk.injEq] at h
       obtain ⟨_, rfl⟩ := h
       exact tk_World_wake w wk
